@@ -107,6 +107,17 @@ func Bytes(name string, n int) string {
 	return string(b)
 }
 
+// BytesIn is Bytes with every byte in [lo,hi].
+func BytesIn(name string, n int, lo, hi byte) string {
+	s := Bytes(name, n)
+	for i := 0; i < len(s); i++ {
+		if s[i] < lo || s[i] > hi {
+			panic(AssumeFailed{fmt.Sprintf("model value %s[%d]=%d outside [%d,%d]", name, i, s[i], lo, hi)})
+		}
+	}
+	return s
+}
+
 func Choice(name string, opts ...string) string {
 	load()
 	i := int(model[name])
@@ -145,12 +156,17 @@ func KnownPanic(id string, c bool) {}
 func ClearKnown()                  {}
 func Stub(target string, fn any)   {}
 func Unstub(target string)         {}
-func Freeze()                      {}
-func SetOpt(name string, v int)    {}
-func Note(key string, v int)       {}
-func Split(x int) int              { return x }
-func SplitStr(s string) string     { return s }
-func IsConcrete(x any) bool        { return true }
+
+// MergeIn switches state merging on inside every call of the named function (the rest of a
+// forking harness keeps forking). No-op natively.
+func MergeIn(target string)     {}
+func Freeze()                   {}
+func SetOpt(name string, v int) {}
+func Note(key string, v int)    {}
+func Split(x int) int           { return x }
+func SplitStr(s string) string  { return s }
+func SplitFeasible(x int) int   { return x }
+func IsConcrete(x any) bool     { return true }
 
 // Poke sets an integer field (exported or not) of the struct p points to.
 func Poke(p any, field string, v int) {
